@@ -56,10 +56,22 @@ package zapcore
 //@   ensures old(panicking()) ==> (#AS == 1 && AS.arg0[0] == *key && AS.arg1[0] == "<nil>" && *retErr == old(*retErr)) || (#AS == 0 && *retErr != nil)
 //@   ensures encFrame(*enc)
 
+// Error expansion (C02): the message under the key; for a group of errors the causes under
+// key+"Causes"; otherwise, for a Formatter whose verbose form differs, that form under key+"Verbose".
 //@ func zapcore.encodeError
-//@   props C10 C01
+//@   props C10 C01 C02
 //@   flags nopanic
 //@   maypanic-call error.Error
+//@   track EAS = invoke zapcore.ObjectEncoder.AddString
+//@   track EAA = invoke zapcore.ObjectEncoder.AddArray
+//@   track EER = invoke error.Error
+//@   ensures #EAS <= 2 && #EAA <= 1 && #EER <= 1
+//@   ensures #EAS >= 1 ==> #EER == 1
+//@   ensures #EAS >= 1 ==> EER.recv[0] == err
+//@   ensures #EAS >= 1 ==> EAS.arg0[0] == key
+//@   ensures #EAS >= 1 ==> EAS.arg1[0] == EER.ret0[0]
+//@   ensures #EAA == 1 ==> #EAS == 1 && implements(err, type(zapcore.errorGroup)) && EAA.arg0[0] == cat(key, "Causes")
+//@   ensures #EAS == 2 ==> !implements(err, type(zapcore.errorGroup)) && implements(err, type(fmt.Formatter)) && EAS.arg0[1] == cat(key, "Verbose") && EAS.arg1[1] != EAS.arg1[0]
 //@   requires enc != nil && encObj(enc) && err != nil
 //@   modifies $user, fields(zapcore.jsonEncoder), buffer.Buffer.bs, comp(E:uint8), fields(zapcore.errArrayElem), fields(zapcore.sliceArrayEncoder)
 //@   ensures encObj(enc)
@@ -107,18 +119,74 @@ package zapcore
 //@   ensures encFrame(arr)
 //@   loop 1 invariant encFrame(arr)
 
-// Field.AddTo: every well-typed field leaves the encoder in an object context; a failing
-// marshaler / Stringer / error / reflected value costs exactly one extra "<key>Error" string
-// member, written after the field's own encoder call.
+// Field.AddTo (C10, C02): every well-typed field leaves the encoder in an object context; the field's
+// type selects exactly one encoder call, with the key and the value unpacked from the union without
+// loss (full-range casts; floats through their bit patterns); a failing marshaler / Stringer / error /
+// reflected value costs exactly one extra "<key>Error" string member, written after that call.
 //@ func (zapcore.Field).AddTo
 //@   props C10 C01 C02
 //@   flags nopanic propagates-panics
 //@   requires enc != nil && encObj(enc) && wfEnc(f)
 //@   track ERR = invoke zapcore.ObjectEncoder.AddString
+//@   track M1 = invoke zapcore.ObjectEncoder.AddArray
+//@   track M2 = invoke zapcore.ObjectEncoder.AddObject
+//@   track M3 = invoke zapcore.ObjectEncoder.AddBinary
+//@   track M4 = invoke zapcore.ObjectEncoder.AddBool
+//@   track M5 = invoke zapcore.ObjectEncoder.AddByteString
+//@   track M6 = invoke zapcore.ObjectEncoder.AddComplex128
+//@   track M7 = invoke zapcore.ObjectEncoder.AddComplex64
+//@   track M8 = invoke zapcore.ObjectEncoder.AddDuration
+//@   track M9 = invoke zapcore.ObjectEncoder.AddFloat64
+//@   track M10 = invoke zapcore.ObjectEncoder.AddFloat32
+//@   track M11 = invoke zapcore.ObjectEncoder.AddInt64
+//@   track M12 = invoke zapcore.ObjectEncoder.AddInt32
+//@   track M13 = invoke zapcore.ObjectEncoder.AddInt16
+//@   track M14 = invoke zapcore.ObjectEncoder.AddInt8
+//@   track M18 = invoke zapcore.ObjectEncoder.AddUint64
+//@   track M19 = invoke zapcore.ObjectEncoder.AddUint32
+//@   track M20 = invoke zapcore.ObjectEncoder.AddUint16
+//@   track M21 = invoke zapcore.ObjectEncoder.AddUint8
+//@   track M22 = invoke zapcore.ObjectEncoder.AddUintptr
+//@   track M23 = invoke zapcore.ObjectEncoder.AddReflected
+//@   track MT = invoke zapcore.ObjectEncoder.AddTime
+//@   track MN = invoke zapcore.ObjectEncoder.OpenNamespace
+//@   track MS = call zapcore.encodeStringer
+//@   track ME = call zapcore.encodeError
+//@   track MI = invoke zapcore.ObjectMarshaler.MarshalLogObject
 //@   modifies $user, fields(zapcore.jsonEncoder), buffer.Buffer.bs, comp(E:uint8), fields(zapcore.errArrayElem), fields(zapcore.sliceArrayEncoder)
 //@   ensures encObj(enc)
-//@   ensures f.Type == 15 ==> #ERR == 1
+//@   ensures f.Type == 15 ==> #ERR == 1 && ERR.arg0[0] == f.Key && ERR.arg1[0] == f.String
 //@   ensures f.Type != 15 ==> #ERR <= 1
+//@   ensures f.Type == 1 ==> #M1 == 1 && M1.arg0[0] == f.Key
+//@   ensures f.Type == 2 ==> #M2 == 1 && M2.arg0[0] == f.Key
+//@   ensures f.Type == 3 ==> #M3 == 1 && M3.arg0[0] == f.Key && M3.arg1[0] == as(f.Interface, type([]byte))
+//@   ensures f.Type == 4 ==> #M4 == 1 && M4.arg0[0] == f.Key && M4.arg1[0] == (f.Integer == 1)
+//@   ensures f.Type == 5 ==> #M5 == 1 && M5.arg0[0] == f.Key && M5.arg1[0] == as(f.Interface, type([]byte))
+//@   ensures f.Type == 6 ==> #M6 == 1 && M6.arg0[0] == f.Key && M6.arg1[0] == as(f.Interface, type(complex128))
+//@   ensures f.Type == 7 ==> #M7 == 1 && M7.arg0[0] == f.Key && M7.arg1[0] == as(f.Interface, type(complex64))
+//@   ensures f.Type == 8 ==> #M8 == 1 && M8.arg0[0] == f.Key && M8.arg1[0] == f.Integer
+//@   ensures f.Type == 9 ==> #M9 == 1 && M9.arg0[0] == f.Key && M9.arg1[0] == math.Float64frombits(uint64(f.Integer))
+//@   ensures f.Type == 10 ==> #M10 == 1 && M10.arg0[0] == f.Key && M10.arg1[0] == math.Float32frombits(uint32(f.Integer))
+//@   ensures f.Type == 11 ==> #M11 == 1 && M11.arg0[0] == f.Key && M11.arg1[0] == f.Integer
+//@   ensures f.Type == 12 ==> #M12 == 1 && M12.arg0[0] == f.Key && M12.arg1[0] == int32(f.Integer)
+//@   ensures f.Type == 13 ==> #M13 == 1 && M13.arg0[0] == f.Key && M13.arg1[0] == int16(f.Integer)
+//@   ensures f.Type == 14 ==> #M14 == 1 && M14.arg0[0] == f.Key && M14.arg1[0] == int8(f.Integer)
+//@   ensures f.Type == 18 ==> #M18 == 1 && M18.arg0[0] == f.Key && M18.arg1[0] == uint64(f.Integer)
+//@   ensures f.Type == 19 ==> #M19 == 1 && M19.arg0[0] == f.Key && M19.arg1[0] == uint32(f.Integer)
+//@   ensures f.Type == 20 ==> #M20 == 1 && M20.arg0[0] == f.Key && M20.arg1[0] == uint16(f.Integer)
+//@   ensures f.Type == 21 ==> #M21 == 1 && M21.arg0[0] == f.Key && M21.arg1[0] == uint8(f.Integer)
+//@   ensures f.Type == 22 ==> #M22 == 1 && M22.arg0[0] == f.Key && M22.arg1[0] == uint64(f.Integer)
+//@   ensures f.Type == 23 ==> #M23 == 1 && M23.arg0[0] == f.Key && M23.arg1[0] == f.Interface
+//@   ensures f.Type == 16 || f.Type == 17 ==> #MT == 1 && MT.arg0[0] == f.Key
+//@   ensures f.Type == 17 ==> MT.arg1[0] == as(f.Interface, type(time.Time))
+//@   ensures f.Type == 16 && f.Interface == nil ==> MT.arg1[0] == time.Unix(0, f.Integer)
+//@   ensures f.Type == 24 ==> #MN == 1 && MN.arg0[0] == f.Key
+//@   ensures f.Type == 25 ==> #MS == 1 && MS.arg0[0] == f.Key && MS.arg1[0] == f.Interface && MS.arg2[0] == enc
+//@   ensures f.Type == 26 ==> #ME == 1 && ME.arg0[0] == f.Key && ME.arg1[0] == f.Interface && ME.arg2[0] == enc
+//@   ensures f.Type == 28 ==> #MI == 1 && MI.recv[0] == f.Interface && MI.arg0[0] == enc
+//@   ensures #M1 + #M2 + #M3 + #M4 + #M5 + #M6 + #M7 + #M8 + #M9 + #M10 + #M11 + #M12 + #M13 + #M14 + #M18 + #M19 + #M20 + #M21 + #M22 + #M23 + #MT + #MN + #MS + #ME + #MI <= 1
+//@   ensures f.Type == 15 || f.Type == 27 ==> #M1 + #M2 + #M3 + #M4 + #M5 + #M6 + #M7 + #M8 + #M9 + #M10 + #M11 + #M12 + #M13 + #M14 + #M18 + #M19 + #M20 + #M21 + #M22 + #M23 + #MT + #MN + #MS + #ME + #MI == 0
+//@   ensures f.Type == 27 ==> #ERR == 0
 //@   ensures encFrame(enc)
 
 //@ func zapcore.addFields
@@ -189,3 +257,20 @@ package zapcore
 //@   loop 1 invariant forall k int :: 0 <= k && k < len(mc) ==> mc[k] == old(mc[k])
 //@   loop 1 invariant forall k int :: 0 <= k && k < $idx ==> S.recv[k] == old(mc[k])
 //@   loop 1 invariant err == errFold(S.ret0, $idx)
+
+// ---------------------------------------------------------------------------
+// Round trips through the Integer slot of the field union (C02/C03): a constructor stores
+// int64(v) (zero- or sign-extended), AddTo hands T(f.Integer) to the encoder - the original value,
+// for every value of every width.
+//@ lemma union_roundtrip_signed
+//@   props C02 C03
+//@   ensures forall v int8 :: int8(int64(v)) == v
+//@   ensures forall v int16 :: int16(int64(v)) == v
+//@   ensures forall v int32 :: int32(int64(v)) == v
+
+//@ lemma union_roundtrip_unsigned
+//@   props C02 C03
+//@   ensures forall v uint8 :: uint8(int64(v)) == v
+//@   ensures forall v uint16 :: uint16(int64(v)) == v
+//@   ensures forall v uint32 :: uint32(int64(v)) == v
+//@   ensures forall v uint64 :: uint64(int64(v)) == v
